@@ -2,6 +2,7 @@ import OV.Model.Index
 import OV.Lemmas.Index
 import OV.Lemmas.IndexPlan
 import OV.Lemmas.IndexGather
+import OV.Lemmas.IndexComplete
 /-!
 # C11 — tensor indexing and slicing mean what they mean in NumPy
 
@@ -137,23 +138,41 @@ example : onnxSliceList [10, 20, 30, 40, 50] (convBounds none (some (-3)) (-2)).
     (convBounds none (some (-3)) (-2)).2 (-2) = [50] ∧ pySliceList [10, 20, 30, 40, 50] none (some (-3)) (-2) = [50] := by
   decide
 
-/-- **A scalar index as `i:i+1:1` + Squeeze** (both front ends do this when the Slice path is
-taken).  For every list and every integer `i` the one-step slice is the singleton `[l[i]]` when
-`0 ≤ i < n` or `-n ≤ i ≤ -2`, and is *empty* otherwise — in particular for `i = -1` — so the
-following `Squeeze` fails: an error, never a different element. -/
-theorem scalar_as_slice {α} (l : List α) (i : Int) :
-    onnxSliceList l i (i + 1) 1 =
-      (match (if i = -1 then none else normIdx l.length i) with
+/-- **A scalar index as a one-step slice + Squeeze** (both front ends do this when the Slice path
+is taken): `i:i+1:1`, and `-1:e:1` with `e` "the end" (int64 maximum / the dimension) for `i = -1`.
+For every list, every integer `i` and every `e ≥ n` the slice is the singleton `[l[i]]` exactly
+when NumPy accepts the index (`-n ≤ i < n`), and empty otherwise — so the following `Squeeze`
+succeeds exactly when NumPy does. -/
+theorem scalar_as_slice {α} (l : List α) (i e : Int) (he : (l.length : Int) ≤ e) :
+    onnxSliceList l i (scalarStop i e) 1 =
+      (match normIdx l.length i with
        | some k => (l[k]?).toList
        | none => []) := by
-  unfold onnxSliceList onnxNorm normIdx
+  unfold onnxSliceList onnxNorm normIdx scalarStop
   have h1 : ¬ ((1 : Int) < 0) := by decide
   simp only [h1, if_false]
   by_cases hm1 : i = -1
   · subst hm1
     simp only [if_true]
-    rw [sliceLen_empty_pos _ _ _ (by decide) (by simp only [Int.min_def, Int.max_def]; (repeat' split) <;> omega)]
-    rfl
+    by_cases hnil : l = []
+    · subst hnil
+      simp [enumerate_nil]
+    · have hpos : (0 : Int) < (l.length : Int) := by
+        cases l with
+        | nil => exact absurd rfl hnil
+        | cons x t => simp only [List.length_cons]; omega
+      generalize (l.length : Int) = n at he hpos ⊢
+      have e1 : max 0 (min (if (-1 : Int) < 0 then -1 + n else -1) n) = n - 1 := by
+        simp only [Int.min_def, Int.max_def]; (repeat' split) <;> omega
+      have e2 : max 0 (min (if e < 0 then e + n else e) n) = n - 1 + 1 := by
+        simp only [Int.min_def, Int.max_def]; (repeat' split) <;> omega
+      have hneg : (-1 : Int) < 0 ∧ -n ≤ -1 := by omega
+      have hin : ¬ ((0 : Int) ≤ -1 ∧ (-1 : Int) < n) := by omega
+      have h0 : (0 : Int) ≤ n - 1 := by omega
+      rw [e1, e2, sliceLen_one, enumerate_one]
+      simp only [hin, hneg, and_self, if_true, if_false, h0]
+      have : (n - 1).toNat = (-1 + n).toNat := by congr 1; omega
+      rw [this]
   · simp only [hm1, if_false]
     by_cases hin : 0 ≤ i ∧ i < (l.length : Int)
     · have e1 : max 0 (min (if i < 0 then i + ↑l.length else i) (↑l.length : Int)) = i := by
@@ -177,7 +196,32 @@ theorem scalar_as_slice {α} (l : List α) (i : Int) :
           (by simp only [Int.min_def, Int.max_def]; (repeat' split) <;> omega)]
         rfl
 
-example : onnxSliceList [10, 20, 30] (-2) (-1) 1 = [20] ∧ onnxSliceList [10, 20, 30] (-1) 0 1 = [] := by decide
+example : onnxSliceList [10, 20, 30] (-2) (scalarStop (-2) maxint) 1 = [20] ∧
+    onnxSliceList [10, 20, 30] (-1) (scalarStop (-1) maxint) 1 = [30] ∧
+    onnxSliceList [10, 20, 30] (-1) (scalarStop (-1) 3) 1 = [30] ∧
+    onnxSliceList [10, 20, 30] 3 (scalarStop 3 maxint) 1 = [] := by decide
+
+/-- **A Python int on the converter's Slice path is NumPy's integer index — as an equality**, error
+cases included: the axis is dropped at `l[i]` when `-n ≤ i < n`, and the graph fails (Squeeze of an
+empty axis) exactly when NumPy raises IndexError.  (Before the repair of `i = -1` this held only
+as an implication.) -/
+theorem graph_axis_int_eq_numpy (i : Int) (srcs : List Nat) (hlen : (srcs.length : Int) < maxint) :
+    graphAxisSlicePath (.int i) srcs = numpyAxis (.int i) srcs := by
+  simp only [graphAxisSlicePath, numpyAxis, scalar_as_slice srcs i maxint (by omega)]
+  cases normIdx srcs.length i with
+  | none => rfl
+  | some k => cases hk : srcs[k]? <;> (simp only [hk]; rfl)
+
+/-- … and likewise in eager mode, for Python ints and rank-0 tensor indices, with no size bound. -/
+theorem eager_axis_scalar_eq_numpy (i : Int) (srcs : List Nat) :
+    eagerAxisSlicePath (.int i) srcs = numpyAxis (.int i) srcs ∧
+    eagerAxisSlicePath (.tScalar i) srcs = numpyAxis (.tScalar i) srcs := by
+  have h : eagerAxisSlicePath (.int i) srcs = numpyAxis (.int i) srcs := by
+    simp only [eagerAxisSlicePath, numpyAxis, scalar_as_slice srcs i srcs.length (by omega)]
+    cases normIdx srcs.length i with
+    | none => rfl
+    | some k => cases hk : srcs[k]? <;> (simp only [hk]; rfl)
+  exact ⟨h, h⟩
 
 /-- **Axis level, Slice path**: whenever the converter's Slice(+Squeeze) treatment of a component
 (`:`, a Python int, a slice whose bounds and step are constants *or tensors*) yields a result on an
@@ -192,19 +236,7 @@ theorem graph_axis_refines_numpy_partial (c : Comp) (srcs : List Nat) (a : AxisM
   | full => simpa [graphAxisSlicePath, numpyAxis] using h
   | tScalar v => simp [graphAxisSlicePath] at h
   | tVec vs => simp [graphAxisSlicePath] at h
-  | int i =>
-    simp only [graphAxisSlicePath, scalar_as_slice] at h
-    simp only [numpyAxis]
-    by_cases hm1 : i = -1
-    · simp [hm1, single?, Functor.map, Except.map] at h
-    · simp only [hm1, if_false] at h
-      cases hn : normIdx srcs.length i with
-      | none => simp [hn, single?, Functor.map, Except.map] at h
-      | some k =>
-        simp only [hn] at h ⊢
-        cases hk : srcs[k]? with
-        | none => simp [hk, single?, Functor.map, Except.map] at h
-        | some s => simpa [hk, single?, Functor.map, Except.map] using h
+  | int i => rw [← graph_axis_int_eq_numpy i srcs hlen]; exact h
   | slice lo hi st =>
     have hstep : ∀ step, (st.val?).getD 1 = step → step ≠ 0 →
         onnxSliceList srcs (convBounds lo.val? hi.val? step).1 (convBounds lo.val? hi.val? step).2 step
@@ -260,7 +292,8 @@ theorem graph_axis_refines_numpy_partial (c : Comp) (srcs : List Nat) (a : AxisM
 
 example : graphAxisSlicePath (.slice (.const 1) .none (.const 2)) [0, 1, 2, 3, 4] = .ok (.pick [1, 3]) := by decide
 example : graphAxisSlicePath (.int (-2)) [0, 1, 2] = .ok (.drop 1) ∧
-    graphAxisSlicePath (.int (-1)) [0, 1, 2] = .error .indexError := by decide
+    graphAxisSlicePath (.int (-1)) [0, 1, 2] = .ok (.drop 2) ∧
+    graphAxisSlicePath (.int 3) [0, 1, 2] = .error .indexError := by decide
 
 /-- **Whole expressions, the converter (all paths, tensor-valued indices and bounds included).**
 For *every* index expression with at most one 1-D tensor index placed so that NumPy keeps the
@@ -463,18 +496,7 @@ theorem eager_axis_refines_numpy (c : Comp) (srcs : List Nat) (a : AxisMap)
     (h : eagerAxisSlicePath c srcs = .ok a) : numpyAxis c srcs = .ok a := by
   have hscalar : ∀ i : Int, eagerAxisSlicePath (.int i) srcs = .ok a → numpyAxis (.int i) srcs = .ok a := by
     intro i h
-    simp only [eagerAxisSlicePath, scalar_as_slice] at h
-    simp only [numpyAxis]
-    by_cases hm1 : i = -1
-    · simp [hm1, single?, Functor.map, Except.map] at h
-    · simp only [hm1, if_false] at h
-      cases hn : normIdx srcs.length i with
-      | none => simp [hn, single?, Functor.map, Except.map] at h
-      | some k =>
-        simp only [hn] at h ⊢
-        cases hk : srcs[k]? with
-        | none => simp [hk, single?, Functor.map, Except.map] at h
-        | some s => simpa [hk, single?, Functor.map, Except.map] using h
+    rw [← (eager_axis_scalar_eq_numpy i srcs).1]; exact h
   cases c with
   | full => simpa [eagerAxisSlicePath, numpyAxis] using h
   | tVec vs => simp [eagerAxisSlicePath] at h
@@ -526,6 +548,218 @@ example : eagerIndex [.int 0, .tVec [1, 2]] [2, 3, 4] = .ok [.drop 0, .pick [1, 
     needsTranspose [.int 0, .tVec [1, 2]] = false := by decide
 example : eagerIndex [.tScalar 1, .slice (.dyn 1) .none .none, .tVec [3, 0]] [2, 3, 4]
     = .ok [.drop 1, .pick [1, 2], .pick [3, 0]] := by decide
+
+/-- **Axis level, Slice path, as an equality** — for every component the Slice path handles (`:`,
+Python int, any slice) the converter's per-axis result *is* NumPy's, errors included (a zero step is
+a ValueError in both, an out-of-range int an IndexError in both), provided a tensor-valued step
+comes with both bounds (else the converter refuses the form) and the D22 hypothesis holds. -/
+theorem graph_axis_eq_numpy_partial (c : Comp) (srcs : List Nat)
+    (hns : (c.kind == Kind.nonScalar) = false)
+    (hlen : (srcs.length : Int) < maxint)
+    (hform : ∀ lo hi s, c = .slice lo hi (.dyn s) → ∃ l h, lo.val? = some l ∧ hi.val? = some h)
+    (hD22 : ∀ lo hi st, c = .slice lo hi st → (st.val?).getD 1 < 0 →
+              ∀ x, lo.val? = some x → -(srcs.length : Int) ≤ x) :
+    graphAxisSlicePath c srcs = numpyAxis c srcs := by
+  cases c with
+  | full => rfl
+  | tScalar v => exact absurd hns (by simp only [Comp.kind]; decide)
+  | tVec vs => exact absurd hns (by simp only [Comp.kind]; decide)
+  | int i => exact graph_axis_int_eq_numpy i srcs hlen
+  | slice lo hi st =>
+    have hstep : ∀ step, (st.val?).getD 1 = step → step ≠ 0 →
+        onnxSliceList srcs (convBounds lo.val? hi.val? step).1 (convBounds lo.val? hi.val? step).2 step
+          = pySliceList srcs lo.val? hi.val? step := by
+      intro step hs hne
+      exact slice_list_conv_eq_numpy_partial srcs _ _ step hlen hne
+        (fun hneg x hx => hD22 lo hi st rfl (by rw [hs]; exact hneg) x hx)
+    simp only [graphAxisSlicePath]
+    by_cases hskip : lo = .none ∧ hi = .none ∧ st = .none
+    · simp only [hskip, and_self, if_true]
+      obtain ⟨rfl, rfl, rfl⟩ := hskip
+      have e : (Bnd.none).val? = none := rfl
+      simp only [numpyAxis, e, Option.getD]
+      rw [pySliceList_full]
+      rfl
+    · simp only [hskip, if_false]
+      cases st with
+      | dyn v =>
+        have e : (Bnd.dyn v).val? = some v := rfl
+        obtain ⟨l, u, hl, hh⟩ := hform lo hi v rfl
+        simp only [hl, hh, numpyAxis, e, Option.getD]
+        by_cases hv : v = 0
+        · simp [hv]
+        · have hb : (v == 0) = false := by simpa using hv
+          simp only [hb]
+          have hcb : convBounds (some l) (some u) v = (l, u) := by
+            unfold convBounds; split <;> rfl
+          have := hstep v rfl hv
+          rw [hl, hh, hcb] at this
+          rw [this]
+      | none =>
+        have e : (Bnd.none).val? = none := rfl
+        simp only [numpyAxis, e, Option.getD]
+        rw [hstep 1 rfl (by decide)]
+      | const v =>
+        have e : (Bnd.const v).val? = some v := rfl
+        simp only [numpyAxis, e, Option.getD]
+        by_cases hv : v = 0
+        · simp [hv]
+        · have hb : (v == 0) = false := by simpa using hv
+          simp only [hb]
+          rw [hstep v rfl hv]
+
+/-- **Whole expressions, the converter, converse direction ("exactly NumPy's result").**  For every
+index expression and shape: if NumPy returns a tensor (so the expression is within the modelled
+forms: at most one 1-D index, broadcast axis in place, not more components than axes), then the
+translated graph returns *that* tensor — it neither fails nor refuses — provided only that a
+tensor-valued step is written with both bounds (the converter's documented refusal) and the D22
+hypothesis holds.  Together with `graph_index_correct_partial`:
+`graphIndex comps shape = .ok r ↔ numpyIndex comps shape = .ok r` on these forms. -/
+theorem graph_index_complete_partial (comps : List Comp) (shape : List Nat) (r : View)
+    (hdims : ∀ d ∈ shape, (d : Int) < maxint)
+    (hform : ∀ (j : Nat) (lo hi : Bnd) (s : Int), comps[j]? = some (.slice lo hi (.dyn s)) →
+        ∃ l h, lo.val? = some l ∧ hi.val? = some h)
+    (hD22 : ∀ (j d : Nat) (lo hi st : Bnd), comps[j]? = some (.slice lo hi st) → shape[j]? = some d →
+        (st.val?).getD 1 < 0 → ∀ x, lo.val? = some x → -(d : Int) ≤ x)
+    (h : numpyIndex comps shape = .ok r) : graphIndex comps shape = .ok r := by
+  -- what NumPy's success says
+  unfold numpyIndex at h
+  by_cases h1 : comps.length > shape.length
+  · rw [if_pos h1] at h; cases h
+  rw [if_neg h1] at h
+  by_cases h2 : (comps.filter Comp.isVec).length > 1
+  · rw [if_pos h2] at h; cases h
+  rw [if_neg h2] at h
+  by_cases h3 : needsTranspose comps = true
+  · rw [if_pos h3] at h; cases h
+  rw [if_neg h3] at h
+  have hlen : comps.length ≤ shape.length := by omega
+  obtain ⟨_, hpw⟩ := axiswise_ok_pointwise numpyAxis comps shape r h
+  cases huse : useSlice comps with
+  | false => exact graph_gatherpath_complete comps shape r hlen huse h
+  | true =>
+    have hok : ∀ c ∈ comps, sliceOk c := by
+      intro c hc lo hi st hcs hsk
+      subst hcs
+      obtain ⟨j, hj⟩ := List.getElem?_of_mem hc
+      obtain ⟨d, a, _, ha⟩ := hpw j _ hj
+      refine ⟨?_, ?_⟩
+      · intro h0
+        simp only [numpyAxis] at ha
+        have : ((st.val?).getD 1 == 0) = true := by simpa using h0
+        simp [this] at ha
+      · intro s hs
+        subst hs
+        exact hform j lo hi s hj
+    refine graph_slicepath_complete comps shape r hlen huse (sliceEntries_no_refusal comps hok) hok ?_
+    refine axiswise_mono numpyAxis _ comps shape r ?_ h
+    intro j c d a hc hd ha
+    simp only [withGather]
+    by_cases hk : (c.kind == Kind.nonScalar) = true
+    · simpa [hk] using ha
+    · have hk' : (c.kind == Kind.nonScalar) = false := by simpa using hk
+      simp only [hk', Bool.false_eq_true, if_false]
+      rw [graphPre_not_nonScalar c _ hk', graph_axis_eq_numpy_partial c (List.range d) hk' ?_ ?_ ?_]
+      · exact ha
+      · simp only [List.length_range]; exact hdims d (List.mem_of_getElem? hd)
+      · intro lo hi s hcs; subst hcs; exact hform j lo hi s hc
+      · intro lo hi st hcs hneg x hx
+        subst hcs
+        simp only [List.length_range]
+        exact hD22 j d lo hi st hc hd hneg x hx
+
+example : numpyIndex [.int (-1), .tScalar 2, .slice .none .none (.const (-1))] [2, 3, 4]
+      = .ok [.drop 1, .drop 2, .pick [3, 2, 1, 0]] ∧
+    graphIndex [.int (-1), .tScalar 2, .slice .none .none (.const (-1))] [2, 3, 4]
+      = .ok [.drop 1, .drop 2, .pick [3, 2, 1, 0]] := by decide
+
+/-- … so, on the forms NumPy's side of the model expresses and the converter does not refuse, the
+translated graph and NumPy agree as partial functions (up to the open finding D22). -/
+theorem graph_index_iff_numpy_partial (comps : List Comp) (shape : List Nat) (r : View)
+    (hvec : (comps.filter Comp.isVec).length ≤ 1) (hnt : needsTranspose comps = false)
+    (hlen : comps.length ≤ shape.length)
+    (hdims : ∀ d ∈ shape, (d : Int) < maxint)
+    (hform : ∀ (j : Nat) (lo hi : Bnd) (s : Int), comps[j]? = some (.slice lo hi (.dyn s)) →
+        ∃ l h, lo.val? = some l ∧ hi.val? = some h)
+    (hD22 : ∀ (j d : Nat) (lo hi st : Bnd), comps[j]? = some (.slice lo hi st) → shape[j]? = some d →
+        (st.val?).getD 1 < 0 → ∀ x, lo.val? = some x → -(d : Int) ≤ x) :
+    graphIndex comps shape = .ok r ↔ numpyIndex comps shape = .ok r :=
+  ⟨graph_index_correct_partial comps shape r hvec hnt hlen hdims hD22,
+   graph_index_complete_partial comps shape r hdims hform hD22⟩
+
+/-- **Axis level, eager mode, as an equality** (no hypothesis): for every component the
+Slice(+squeeze) path handles, eager mode's per-axis result *is* NumPy's, errors included. -/
+theorem eager_axis_eq_numpy (c : Comp) (srcs : List Nat) (hv : c.isVec = false) :
+    eagerAxisSlicePath c srcs = numpyAxis c srcs := by
+  cases c with
+  | full => rfl
+  | tVec vs => simp [Comp.isVec] at hv
+  | int i => exact (eager_axis_scalar_eq_numpy i srcs).1
+  | tScalar i => exact (eager_axis_scalar_eq_numpy i srcs).2
+  | slice lo hi st =>
+    simp only [eagerAxisSlicePath]
+    by_cases hskip : lo = .none ∧ hi = .none ∧ st = .none
+    · simp only [hskip, and_self, if_true]
+      obtain ⟨rfl, rfl, rfl⟩ := hskip
+      have e : (Bnd.none).val? = none := rfl
+      simp only [numpyAxis, e, Option.getD]
+      rw [pySliceList_full]
+      rfl
+    · simp only [hskip, if_false, numpyAxis]
+      by_cases h0 : (st.val?).getD 1 = 0
+      · simp [h0]
+      · have hb0 : ((st.val?).getD 1 == 0) = false := by simpa using h0
+        simp only [hb0]
+        rw [slice_list_eager_eq_numpy srcs _ _ _ h0]
+
+/-- **Whole expressions, eager mode: exactly NumPy's result, no hypothesis.**  For every index
+expression and shape: if NumPy returns a tensor (so: at most one 1-D index, broadcast axis in
+place, not more components than axes, no zero step, every integer in range), then
+`Tensor.__getitem__` returns *that* tensor.  Together with `eager_index_correct_partial`: on the
+modelled forms `eagerIndex comps shape = .ok r ↔ numpyIndex comps shape = .ok r` — eager indexing
+returns exactly NumPy's result and fails exactly when NumPy raises. -/
+theorem eager_index_complete (comps : List Comp) (shape : List Nat) (r : View)
+    (h : numpyIndex comps shape = .ok r) : eagerIndex comps shape = .ok r := by
+  unfold numpyIndex at h
+  by_cases h1 : comps.length > shape.length
+  · rw [if_pos h1] at h; cases h
+  rw [if_neg h1] at h
+  by_cases h2 : (comps.filter Comp.isVec).length > 1
+  · rw [if_pos h2] at h; cases h
+  rw [if_neg h2] at h
+  by_cases h3 : needsTranspose comps = true
+  · rw [if_pos h3] at h; cases h
+  rw [if_neg h3] at h
+  obtain ⟨_, hpw⟩ := axiswise_ok_pointwise numpyAxis comps shape r h
+  refine OV.Index.eager_index_complete comps shape r (by omega) (by omega) ?_ h ?_
+  · intro c hc lo hi st hcs hsk h0
+    subst hcs
+    obtain ⟨j, hj⟩ := List.getElem?_of_mem hc
+    obtain ⟨d, a, _, ha⟩ := hpw j _ hj
+    simp only [numpyAxis] at ha
+    have : ((st.val?).getD 1 == 0) = true := by simpa using h0
+    simp [this] at ha
+  · refine axiswise_mono numpyAxis _ comps shape r ?_ h
+    intro j c d a _ _ ha
+    simp only [withGather]
+    by_cases hv : c.isVec = true
+    · simpa [hv] using ha
+    · have hv' : c.isVec = false := by simpa using hv
+      simp only [hv', Bool.false_eq_true, if_false]
+      rw [eagerPre_not_vec c _ hv', eager_axis_eq_numpy c _ hv']
+      exact ha
+
+/-- … so, on the forms NumPy's side of the model expresses, eager indexing and NumPy agree as
+partial functions. -/
+theorem eager_index_iff_numpy (comps : List Comp) (shape : List Nat) (r : View)
+    (hvec : (comps.filter Comp.isVec).length ≤ 1) (hnt : needsTranspose comps = false) :
+    eagerIndex comps shape = .ok r ↔ numpyIndex comps shape = .ok r :=
+  ⟨eager_index_correct_partial comps shape r hvec hnt, eager_index_complete comps shape r⟩
+
+example : numpyIndex [.slice (.const (-9)) .none (.const (-2)), .int (-1), .tVec [0, -1]] [4, 2, 3]
+      = .ok [.pick [], .drop 1, .pick [0, 2]] ∧
+    eagerIndex [.slice (.const (-9)) .none (.const (-2)), .int (-1), .tVec [0, -1]] [4, 2, 3]
+      = .ok [.pick [], .drop 1, .pick [0, 2]] := by decide
 
 /-- **The two front ends agree** (DESIGN: `graph_eq_eager_partial`): whenever the translated graph
 and eager mode both return a tensor for the same expression (within the forms of
